@@ -116,8 +116,6 @@ def is_implementation_supported():
 
 
 def pytest_configure(config):
-    enter_snapshot_context()
-
     directory = config.rootpath
     while not (pyproject := directory / "pyproject.toml").exists():
         if directory == directory.parent:
@@ -150,8 +148,6 @@ def pytest_configure(config):
             raise pytest.UsageError(
                 f"--inline-snapshot={','.join(flags)} can not be combined with xdist"
             )
-    state().flags = flags
-
     unknown_flags = flags - categories - {"disable", "review", "report", "short-report"}
     if unknown_flags:
         raise pytest.UsageError(
@@ -162,6 +158,12 @@ def pytest_configure(config):
         raise pytest.UsageError(
             f"--inline-snapshot=disable can not be combined with other flags ({', '.join(flags-{'disable'})})"
         )
+
+    # The context is entered after the flags are checked: pytest_sessionfinish,
+    # which leaves it, is not called when pytest_configure raises an UsageError.
+    enter_snapshot_context()
+
+    state().flags = flags
 
     if xdist_running(config) or not is_implementation_supported() or is_ci_run():
         state().active = False
